@@ -888,7 +888,8 @@ func (k *kahn) checkVerdict() {
 		return false
 	}
 	// element of a range over D
-	elemOfD := func(v ssa.Value) (*ir.Loop, bool) {
+	var elemOfD func(v ssa.Value) (*ir.Loop, bool)
+	elemOfD = func(v ssa.Value) (*ir.Loop, bool) {
 		ext, ok := ir.Resolve(v).(*ssa.Extract)
 		if !ok || ext.Index != 2 {
 			return nil, false
@@ -904,6 +905,38 @@ func (k *kahn) checkVerdict() {
 		for _, l := range k.loops {
 			if l.Header == nx.Block() {
 				return l, true
+			}
+		}
+		return nil, false
+	}
+	// ... or D[node.id] for the element of a range over all the graph's nodes (a node
+	// without an entry reads 0, so the walk over the nodes covers every entry of D)
+	elemOfD0 := elemOfD
+	elemOfD = func(v ssa.Value) (*ir.Loop, bool) {
+		if l, ok := elemOfD0(v); ok {
+			return l, true
+		}
+		lk, ok := ir.Resolve(v).(*ssa.Lookup)
+		if !ok || lk.CommaOk || !k.isD(lk.X) {
+			return nil, false
+		}
+		p, okp := e.C.PathOf(lk.Index)
+		if !okp || len(p.Fields) != 1 || p.Fields[0] != "id" {
+			return nil, false
+		}
+		for _, l := range k.loops {
+			if l.Ranged == nil || l.Elem == nil || k.main.Blocks[l.Header] {
+				continue
+			}
+			if !SameValue(p.Root, l.Elem) && !sameElem(p.Root, l.Elem) {
+				continue
+			}
+			if rp, okr := e.C.PathOf(l.Ranged); okr {
+				for _, an := range e.graphRoles().AllNodes {
+					if rp.Suffix(an) {
+						return l, true
+					}
+				}
 			}
 		}
 		return nil, false
@@ -946,7 +979,33 @@ func (k *kahn) checkVerdict() {
 		r.Check(drained, "cycle test: the verdict is given only after the work list was drained", e.InstrPos(rt),
 			"a verdict is returned before the elimination finished", e.FactsStr("dominating conditions: ", lits))
 		res := ir.Resolve(rt.Results[0])
-		if cv, isC := ir.ConstBool(res); isC {
+		cv, isC := ir.ConstBool(res)
+		if !isC && nilable(res.Type()) {
+			// a cycle test that hands back a witness: nil is "no cycle", a value that
+			// cannot be nil is "cycle"; a value that may be nil, returned where a degree
+			// is still positive, can turn a cycle found into "no cycle"
+			switch {
+			case ir.IsNilConst(res):
+				cv, isC = false, true
+			case e.definitelyNonNil(res, 0):
+				cv, isC = true, true
+			default:
+				pos := false
+				for _, l := range lits {
+					if _, isP := positive(l); isP {
+						pos = true
+					}
+				}
+				if pos {
+					r.Bad("cycle test: where a degree is still non-zero after the elimination the answer is `cycle`", e.InstrPos(rt),
+						"at a node whose in-degree stayed positive the test returns a witness that can be nil (= no cycle): the cycle the elimination found is lost on the way to the verdict, the cyclic DAG is admitted and its run never finishes", "returned: "+e.C.Render(res))
+				} else {
+					r.Unknown("cycle test: the witness returned", e.InstrPos(rt), "neither nil nor a value known to be non-nil: "+e.C.Render(res))
+				}
+				continue
+			}
+		}
+		if isC {
 			if cv {
 				good := false
 				for _, l := range lits {
@@ -961,8 +1020,16 @@ func (k *kahn) checkVerdict() {
 			// false: after a complete scan of D in which every element was non-positive
 			var scan *ir.Loop
 			for _, l := range k.loops {
-				if l.Ranged != nil && k.isD(l.Ranged) && !k.main.Blocks[l.Header] && l.Header.Dominates(b) && !l.Blocks[b] {
-					scan = l
+				if l.Ranged != nil && !k.main.Blocks[l.Header] && l.Header.Dominates(b) && !l.Blocks[b] {
+					if k.isD(l.Ranged) {
+						scan = l
+					} else if rp, okr := e.C.PathOf(l.Ranged); okr {
+						for _, an := range e.graphRoles().AllNodes {
+							if rp.Suffix(an) {
+								scan = l
+							}
+						}
+					}
 				}
 			}
 			good := scan != nil
@@ -992,7 +1059,11 @@ func (k *kahn) checkVerdict() {
 						rt2, isR := s.Instrs[len(s.Instrs)-1].(*ssa.Return)
 						cv2, isC2 := false, false
 						if isR && len(rt2.Results) == 1 {
-							cv2, isC2 = ir.ConstBool(ir.Resolve(rt2.Results[0]))
+							rv2 := ir.Resolve(rt2.Results[0])
+							cv2, isC2 = ir.ConstBool(rv2)
+							if !isC2 && nilable(rv2.Type()) && !ir.IsNilConst(rv2) {
+								cv2, isC2 = true, true // a witness: judged at its own return
+							}
 						}
 						if !(isR && isC2 && cv2) {
 							good = false
